@@ -142,3 +142,8 @@ pub fn reset_counters() {
 pub fn state_depths() -> (usize, usize) {
     (directive_depth(), version_depth())
 }
+
+/// Number of `begin_keywords / `end_keywords directives recorded on this thread (read only).
+pub fn keywords_region_count() -> usize {
+    crate::utils::keywords_region_count()
+}
